@@ -231,7 +231,7 @@ func runCheck(o checkOpts) int {
 			defer dwg.Done()
 			dsem <- struct{}{}
 			defer func() { <-dsem }()
-			q := ob.enc.queryF(ob.seq, []string{"(assert " + ob.reach.S + ")", "(assert (not " + ob.goal.S + "))"}, ob.values, false, ob.keep)
+			q := ob.enc.queryP(ob.seq, []string{"(assert " + ob.reach.S + ")", "(assert (not " + ob.goal.S + "))"}, ob.values, false, ob.keep, ob.Props)
 			if o.dump != "" {
 				os.MkdirAll(o.dump, 0o755)
 				os.WriteFile(filepath.Join(o.dump, sanitize(ob.Name)+".smt2"), []byte(q), 0o644)
